@@ -577,14 +577,20 @@ class FnTr:
         xs = self.expr(s.iter)
         if not xs.typ.startswith('List '):
             raise Unsupported(f'`{self.inst.qual}`: loop over {xs.typ}')
-        if isinstance(s.target, ast.Name) and len(s.body) == 1 and isinstance(s.body[0], ast.If) and not s.body[0].orelse and len(s.body[0].body) == 1 \
+        pair = isinstance(s.target, ast.Tuple) and len(s.target.elts) == 2 and all(isinstance(t, ast.Name) for t in s.target.elts) \
+            and len(_prod_parts(xs.typ[5:])) == 2
+        if (isinstance(s.target, ast.Name) or pair) and len(s.body) == 1 and isinstance(s.body[0], ast.If) and not s.body[0].orelse and len(s.body[0].body) == 1 \
                 and isinstance(s.body[0].body[0], ast.Return) and isinstance(s.body[0].body[0].value, ast.Constant) \
                 and isinstance(s.body[0].body[0].value.value, bool):
             k = s.body[0].body[0].value.value
-            x = self.gensym(lname(s.target.id))
+            x = self.gensym(lname(s.target.id) if not pair else 'pair')
             inner = self.sub()
             inner.fresh = self.fresh
-            inner.env[s.target.id] = Val(x, xs.typ[5:], path=s.target.id)
+            if pair:
+                for i, (t, pt) in enumerate(zip(s.target.elts, _prod_parts(xs.typ[5:]))):
+                    inner.env[t.id] = Val(f'{x}.{i + 1}', pt, path=t.id)
+            else:
+                inner.env[s.target.id] = Val(x, xs.typ[5:], path=s.target.id)
             c = inner.truth(inner.expr(s.body[0].test))
             if inner.pending:
                 raise Unsupported(f'`{self.inst.qual}`: a call that may raise inside a loop test')
@@ -610,7 +616,7 @@ class FnTr:
             if isinstance(n, ast.Expr) and isinstance(n.value, ast.Call) and isinstance(n.value.func, ast.Attribute) \
                     and n.value.func.attr in ('add', 'append') and isinstance(n.value.func.value, ast.Name):
                 assigned.add(n.value.func.value.id)
-            if isinstance(n, (ast.For, ast.While, ast.Break, ast.Continue, ast.Try, ast.With)):
+            if isinstance(n, (ast.While, ast.Break, ast.Continue, ast.Try, ast.With)):
                 raise Unsupported(f'`{self.inst.qual}`: `{type(n).__name__}` inside a loop body')
         targets = [s.target.id] if isinstance(s.target, ast.Name) else \
             [t.id for t in s.target.elts if isinstance(t, ast.Name)] if isinstance(s.target, ast.Tuple) else None
